@@ -42,18 +42,130 @@ theorem stacked_eq_flatMap (db : Db F) (chain : List Atom) (key : Option Bytes) 
     | nil => simp [pathElems]
     | cons b rest' => simp [pathElems]
 
-def RSym.atoms : RSym → List Atom
-  | .atom a => [a]
-  | .nonSetComp ch _ => ch
-  | .compSet iter last _ => iter ++ last
+/-! ### map elements: the element symbol names the node of the path, `GetPath` + `getTyped` reads it -/
+
+theorem splitLast_spec : ∀ (rest : List String) (q : String),
+    (q :: rest).dropLast = (splitLast q rest).1 ∧ (q :: rest).getLast? = some (splitLast q rest).2
+  | [], q => by simp [splitLast]
+  | r :: rs, q => by
+    have ih := splitLast_spec rs r
+    simp only [splitLast]
+    refine ⟨?_, ?_⟩
+    · rw [List.dropLast_cons_cons, ih.1]
+    · rw [List.getLast?_cons_cons, ih.2]
+
+/-- the element symbol `createElementSymbol` builds names the node the specification reads off the
+    dotted name -/
+theorem elementSymbol_eq_path (st : Nat) (md : MapDef) (q : String) (rest : List String) :
+    mapElemPath st md (q :: rest) = elementSymbol st md q rest := by
+  have h := splitLast_spec rest q
+  simp only [mapElemPath, elementSymbol]
+  have hne : q :: rest ≠ [] := by simp
+  rw [List.dropLast_append_of_ne_nil hne, List.getLast?_append, h.1, h.2]
+  simp
+
+theorem nodeAt_cons (kids : List (String × MNode F)) (p : String) (l : List String) (h : l ≠ []) :
+    nodeAt kids (p :: l) =
+      (match kids.lookup p with
+       | some (.bucket kids') => nodeAt kids' l
+       | _ => none) := by
+  cases l with
+  | nil => exact absurd rfl h
+  | cons q ps => rfl
+
+/-- `GetPath(prefix...)` followed by `getTyped(key)` reads the value stored at the node the whole
+    path names -/
+theorem getPath_getTyped (k : String) : ∀ (bp : List String) (kids : List (String × MNode F)),
+    (match getPath kids bp with | some b => getTyped b k | none => .nil) = leafVal (nodeAt kids (bp ++ [k]))
+  | [], kids => by
+    simp only [getPath, getTyped, List.nil_append, nodeAt]
+    cases kids.lookup k with
+    | none => rfl
+    | some n => cases n <;> rfl
+  | p :: ps, kids => by
+    rw [List.cons_append, nodeAt_cons kids p (ps ++ [k]) (by simp)]
+    simp only [getPath]
+    cases kids.lookup p with
+    | none => rfl
+    | some n =>
+      cases n with
+      | val v => rfl
+      | bucket kids' => exact getPath_getTyped k ps kids'
+
+/-- the path semantics and the code read the same value from every symbol that is not an external
+    function -/
+theorem specAtomVal_eq (db : Db F) (a : Atom) (h : a.isExt = false) (key : Option Bytes) :
+    specAtomVal db a key = evalAtom db a key := by
+  cases a with
+  | id => rfl
+  | field st k ty l => rfl
+  | set st k ty l => rfl
+  | mapElem st bp k ty =>
+    simp only [specAtomVal, evalAtom]
+    cases key.bind (findEntity db st) with
+    | none => rfl
+    | some e => exact (getPath_getTyped k bp e.maps).symm
+  | custom st n ty l k =>
+    cases k with
+    | ext => simp [Atom.isExt] at h
+    | mapped k m => rfl
+
+/-- what `ExternalSymbol.Eval` returns is what the function denotes (since fce0761 also for a nil
+    string result) -/
+theorem codeVal_eq_specVal (e : ExtSrc F) (id : Bytes) : e.codeVal id = e.specVal id := by
+  cases e with
+  | boolFn f => rfl
+  | fn f => rfl
+  | strFn g => simp only [ExtSrc.codeVal, ExtSrc.specVal]
+
+/-- an external function evaluated on an entity's own id: `Eval` returns what the function denotes -/
+theorem specAtomVal_ext_eq (db : Db F) (a : Atom) (id : Bytes) :
+    specAtomVal db a (some id) = evalAtom db a (some id) := by
+  by_cases h : a.isExt = true
+  · cases a with
+    | custom st n ty l k =>
+      cases k with
+      | mapped k m => simp [Atom.isExt] at h
+      | ext => simp only [specAtomVal, evalAtom, Option.getD_some, codeVal_eq_specVal]
+    | id => simp [Atom.isExt] at h
+    | field st k ty l => simp [Atom.isExt] at h
+    | set st k ty l => simp [Atom.isExt] at h
+    | mapElem st bp k ty => simp [Atom.isExt] at h
+  · exact specAtomVal_eq db a (by simpa using h) (some id)
+
+theorem specChain_eq (db : Db F) : ∀ (p : List Atom), noExt p = true → ∀ (key : Option Bytes),
+    specChain db p key = evalChain db p key
+  | [], _, _ => rfl
+  | [a], h, key => specAtomVal_eq db a (by simpa [noExt] using h) key
+  | a :: b :: rest, h, key => by
+    simp only [noExt, List.all_cons, Bool.and_eq_true, Bool.not_eq_eq_eq_not, Bool.not_true] at h
+    simp only [specChain, evalChain, specAtomVal_eq db a h.1]
+    exact specChain_eq db (b :: rest) (by simp [noExt, h.2.1, h.2.2]) _
+
+theorem specLevel_eq (db : Db F) (a : Atom) (h : a.isExt = false) (key : Option Bytes) :
+    specLevel db a key = levelVals db a key := by
+  cases a <;> simp [specLevel, levelVals, specAtomVal_eq, h]
+
+theorem specElems_eq (db : Db F) : ∀ (p : List Atom), noExt p = true → ∀ (key : Option Bytes),
+    specElems db p key = pathElems db p key
+  | [], _, _ => rfl
+  | [a], h, key => specLevel_eq db a (by simpa [noExt] using h) key
+  | a :: b :: rest, h, key => by
+    simp only [noExt, List.all_cons, Bool.and_eq_true, Bool.not_eq_eq_eq_not, Bool.not_true] at h
+    simp only [specElems, pathElems, specLevel_eq db a h.1]
+    congr 1
+    funext v
+    exact specElems_eq db (b :: rest) (by simp [noExt, h.2.1, h.2.2]) _
 
 /-- what `compose` guarantees about its results -/
 def WFR : RSym → Prop
   | .atom _ => True
-  | .nonSetComp ch ty => ch.all (fun a => !a.isSet) = true ∧ 2 ≤ ch.length ∧ ty = pathTy ch
+  | .nonSetComp ch ty => ch.all (fun a => !a.isSet) = true ∧ 2 ≤ ch.length ∧ ty = pathTy ch ∧
+      ch.dropLast.all Atom.iterable = true
   | .compSet iter last ty =>
     last.all (fun a => !a.isSet) = true ∧ iter ≠ [] ∧ pathIsSet iter = true ∧ 2 ≤ (iter ++ last).length ∧
-      ty = pathTy (iter ++ last)
+      ty = pathTy (iter ++ last) ∧ iter.all Atom.iterable = true ∧ last.length ≤ 1 ∧
+      last.all (fun a => !a.iterable) = true
 
 theorem pathTy_cons (a : Atom) (l : List Atom) (h : l ≠ []) : pathTy (a :: l) = pathTy l := by
   cases l with
@@ -74,93 +186,170 @@ theorem atoms_id (r : RSym) (h : WFR r) : r.atoms = [Atom.id] ↔ r = .atom .id 
     · intro e; have := h.2.2.2.1; rw [e] at this; simp at this
     · intro e; cases e
 
-theorem compose_atoms (first : Atom) (rest : RSym) (hw : WFR rest) (ht : rest.hasTail = false) :
+theorem set_iterable (a : Atom) (h : a.isSet = true) : a.iterable = true := by
+  cases a <;> simp_all [Atom.isSet, Atom.iterable]
+
+/-- filtering the iterable symbols out of a chain whose symbols, except possibly the last, are iterable -/
+theorem filter_iterable (ch : List Atom) (last : Atom) (h : ch.all Atom.iterable = true) :
+    (ch ++ [last]).filter Atom.iterable = if last.iterable then ch ++ [last] else ch := by
+  have hf : ch.filter Atom.iterable = ch := List.filter_eq_self.mpr (by simpa using h)
+  by_cases hl : last.iterable = true <;> simp [List.filter_append, hf, hl]
+
+/-- the set branch on a chain `ch ++ [last]` whose symbols before the last are iterable: the whole
+    chain is kept — as the iterable part, or as iterable part plus tail -/
+theorem composeSet_eq (ch : List Atom) (last : Atom) (ty : NodeType) (h : ch.all Atom.iterable = true) :
+    composeSet (ch ++ [last]) ty =
+      (if last.iterable then .compSet (ch ++ [last]) [] ty else .compSet ch [last] ty) := by
+  have hl : (ch ++ [last]).getLast? = some last := by simp
+  simp only [composeSet, hl, filter_iterable ch last h]
+  by_cases hi : last.iterable = true
+  · simp [hi]
+  · have hi' : last.iterable = false := by simpa using hi
+    have hs : last.isSet = false := by
+      cases hs : last.isSet with
+      | false => rfl
+      | true => rw [set_iterable last hs] at hi'; cases hi'
+    simp [hi', hs]
+
+theorem dropLast_append_getLast (l : List Atom) (h : l ≠ []) : ∃ init last, l = init ++ [last] ∧ l.dropLast = init :=
+  ⟨l.dropLast, l.getLast h, (List.dropLast_concat_getLast h).symm, rfl⟩
+
+theorem pathTy_append_singleton (ch : List Atom) (a : Atom) : pathTy (ch ++ [a]) = a.ty := by
+  simp [pathTy]
+
+theorem pathIsSet_append (a b : List Atom) : pathIsSet (a ++ b) = (pathIsSet a || pathIsSet b) := by
+  simp [pathIsSet, List.any_append]
+
+theorem not_iterable_not_set (a : Atom) (h : a.iterable = false) : a.isSet = false := by
+  cases hs : a.isSet with
+  | false => rfl
+  | true => rw [set_iterable a hs] at h; cases h
+
+/-- the set branch of `compose` on the chain `first :: init ++ [last]` -/
+theorem composeSet_chain (first : Atom) (hfi : first.iterable = true) (init : List Atom) (last : Atom) (ty : NodeType)
+    (hinit : init.all Atom.iterable = true) (hset : pathIsSet (first :: (init ++ [last])) = true) (hty : ty = last.ty) :
+    (composeSet (first :: (init ++ [last])) ty).atoms = first :: (init ++ [last]) ∧
+      WFR (composeSet (first :: (init ++ [last])) ty) := by
+  have hch : (first :: init).all Atom.iterable = true := by simp [hfi, hinit]
+  have e : first :: (init ++ [last]) = (first :: init) ++ [last] := by simp
+  rw [e] at hset ⊢
+  rw [composeSet_eq (first :: init) last ty hch]
+  by_cases hi : last.iterable = true
+  · simp only [hi, if_true, RSym.atoms, List.append_nil, WFR]
+    refine ⟨trivial, by simp, by simp, hset, by simp, ?_, ?_, by simp, by simp⟩
+    · rw [hty, pathTy_append_singleton]
+    · simp only [List.all_append, hch, Bool.true_and]; simp [hi]
+  · have hi' : last.iterable = false := by simpa using hi
+    have hs : last.isSet = false := not_iterable_not_set last hi'
+    simp only [hi', Bool.false_eq_true, if_false, RSym.atoms, WFR]
+    refine ⟨trivial, by simp [hs], by simp, ?_, by simp, ?_, hch, by simp, by simp [hi']⟩
+    · rw [pathIsSet_append] at hset
+      simpa [pathIsSet, hs] using hset
+    · rw [hty, pathTy_append_singleton]
+
+/-- composing a link `first` (an fk field or a link set: iterable) in front of a resolved symbol
+    keeps every symbol of the chain (since 5f6f9bb also the non-iterable tail of `set.custom`) -/
+theorem compose_atoms (first : Atom) (hfi : first.iterable = true) (rest : RSym) (hw : WFR rest) :
     (compose first rest).atoms = (if rest.atoms = [Atom.id] then [first] else first :: rest.atoms) ∧
     WFR (compose first rest) := by
   cases rest with
   | atom a =>
-    cases a with
-    | id => simp [compose, RSym.atoms, WFR]
-    | field st k ty l =>
-      have h1 : (Atom.field st k ty l).isSet = false := rfl
-      have h2 : (Atom.field st k ty l).ty = ty := rfl
-      by_cases hf : first.isSet = true
-      · simp [compose, RSym.atoms, WFR, hf, h1, h2, pathIsSet, pathTy]
-      · have hf' : first.isSet = false := by simpa using hf
-        simp [compose, RSym.atoms, WFR, hf', h1, h2, pathTy]
-    | set st k ty l =>
-      have h1 : (Atom.set st k ty l).isSet = true := rfl
-      have h2 : (Atom.set st k ty l).ty = ty := rfl
-      simp [compose, RSym.atoms, WFR, h1, h2, pathIsSet, pathTy]
-    | mapElem st mk k ty =>
-      have h1 : (Atom.mapElem st mk k ty).isSet = false := rfl
-      have h2 : (Atom.mapElem st mk k ty).ty = ty := rfl
-      by_cases hf : first.isSet = true
-      · simp [compose, RSym.atoms, WFR, hf, h1, h2, pathIsSet, pathTy]
-      · have hf' : first.isSet = false := by simpa using hf
-        simp [compose, RSym.atoms, WFR, hf', h1, h2, pathTy]
+    by_cases hid : a = Atom.id
+    · subst hid; simp [compose, RSym.atoms, WFR]
+    · have hne : ([a] : List Atom) ≠ [Atom.id] := by simpa using hid
+      have hcomp : compose first (.atom a) =
+          (if !first.isSet && !a.isSet then .nonSetComp [first, a] a.ty else composeSet [first, a] a.ty) := by
+        cases a <;> first | exact absurd rfl hid | rfl
+      rw [hcomp]
+      have hat : (RSym.atom a).atoms = [a] := rfl
+      rw [hat]
+      simp only [hne, if_false]
+      by_cases hns : (!first.isSet && !a.isSet) = true
+      · simp only [hns, if_true, RSym.atoms, WFR]
+        simp only [Bool.and_eq_true, Bool.not_eq_eq_eq_not, Bool.not_true] at hns
+        refine ⟨trivial, by simp [hns.1, hns.2], by simp, by simp [pathTy], by simp [hfi]⟩
+      · simp only [hns, Bool.false_eq_true, if_false]
+        have hset : pathIsSet (first :: ([] ++ [a])) = true := by
+          simp only [Bool.and_eq_true, Bool.not_eq_eq_eq_not, Bool.not_true, not_and, Bool.not_eq_false] at hns
+          by_cases hf : first.isSet = true
+          · simp [pathIsSet, hf]
+          · simp [pathIsSet, hns (by simpa using hf)]
+        simpa using composeSet_chain first hfi [] a a.ty rfl hset rfl
   | nonSetComp ch ty =>
-    obtain ⟨hall, hlen, hty⟩ := hw
+    obtain ⟨hall, hlen, hty, hit⟩ := hw
     have hne : ch ≠ [] := by intro e; rw [e] at hlen; simp at hlen
     have hid : ch ≠ [Atom.id] := by intro e; rw [e] at hlen; simp at hlen
+    obtain ⟨init, last, hch, hdl⟩ := dropLast_append_getLast ch hne
     by_cases hf : first.isSet = true
-    · simp only [compose, hf, Bool.not_true, Bool.false_eq_true, if_false, RSym.atoms, List.append_nil, hid, WFR]
-      refine ⟨trivial, ?_⟩
-      simp only [List.all_nil, List.append_nil, ne_eq, reduceCtorEq, not_false_eq_true, true_and]
-      refine ⟨by simp [pathIsSet, hf], by simp; omega, ?_⟩
-      rw [hty, pathTy_cons first ch hne]
+    · simp only [compose, hf, Bool.not_true, Bool.false_eq_true, if_false, RSym.atoms, hid]
+      rw [hch]
+      have hinit : init.all Atom.iterable = true := by rw [← hdl]; exact hit
+      exact composeSet_chain first hfi init last ty hinit (by simp [pathIsSet, hf]) (by rw [hty, hch, pathTy_append_singleton])
     · have hf' : first.isSet = false := by simpa using hf
       simp only [compose, hf', Bool.not_false, if_true, RSym.atoms, hid, if_false, WFR]
-      refine ⟨trivial, by simp [hf', hall], by simp; omega, ?_⟩
-      rw [hty, pathTy_cons first ch hne]
+      refine ⟨trivial, by simp [hf', hall], by simp; omega, ?_, ?_⟩
+      · rw [hty, pathTy_cons first ch hne]
+      · rw [hdl] at hit
+        rw [hch, show first :: (init ++ [last]) = (first :: init) ++ [last] by simp, List.dropLast_concat]
+        simp [hfi, hit]
   | compSet iter last ty =>
-    cases last with
-    | cons x xs => simp [RSym.hasTail] at ht
-    | nil =>
-      obtain ⟨_, hne, hset, hlen, hty⟩ := hw
-      have hid : iter ≠ [Atom.id] := by
-        intro e; rw [e] at hlen; simp at hlen
-      simp only [compose, RSym.atoms, List.append_nil, hid, if_false, WFR]
-      simp only [List.append_nil] at hlen hty
-      refine ⟨trivial, rfl, by simp, by simp [pathIsSet] at hset ⊢; exact Or.inr hset, by simp; omega, ?_⟩
-      rw [hty, pathTy_cons first iter hne]
+    obtain ⟨_, hne, hset, hlen, hty, hit, hl1, _⟩ := hw
+    have hne' : iter ++ last ≠ [] := by simp [hne]
+    have hid : iter ++ last ≠ [Atom.id] := by
+      intro e; rw [e] at hlen; simp at hlen
+    obtain ⟨init, lst, hch, hdl⟩ := dropLast_append_getLast (iter ++ last) hne'
+    simp only [compose, RSym.atoms, hid, if_false]
+    rw [hch]
+    have hinit : init.all Atom.iterable = true := by
+      rw [← hdl]
+      cases last with
+      | nil =>
+        simp only [List.append_nil]
+        rw [List.all_eq_true] at hit ⊢
+        exact fun a ha => hit a ((List.dropLast_sublist _).subset ha)
+      | cons x xs =>
+        have : xs = [] := by
+          cases xs with
+          | nil => rfl
+          | cons y ys => simp at hl1
+        subst this
+        rw [List.dropLast_concat]; exact hit
+    have hset' : pathIsSet (first :: (init ++ [lst])) = true := by
+      rw [← hch]
+      simp only [pathIsSet, List.any_cons, List.any_append] at hset ⊢; simp [hset]
+    exact composeSet_chain first hfi init lst ty hinit hset' (by rw [hty, hch, pathTy_append_singleton])
 
+/-- **`GetSymbol` builds the chain the specification reads off the name**, for every name -/
 theorem resolve_path (defs : List StoreDef) : ∀ (parts : List String) (st : Nat),
-    regularParts defs st parts = true →
     specPath defs st parts = (resolve defs st parts).map RSym.atoms ∧
       (∀ r, resolve defs st parts = some r → WFR r)
-  | [], st, _ => ⟨rfl, by intro r h; simp [resolve] at h⟩
-  | [p], st, _ => by
+  | [], st => ⟨rfl, by intro r h; simp [resolve] at h⟩
+  | [p], st => by
     simp only [specPath, resolve]
     cases lookupSym defs st p with
     | none => exact ⟨rfl, by intro r h; simp at h⟩
     | some a => exact ⟨rfl, by intro r h; simp at h; subst h; trivial⟩
-  | p :: q :: rest, st, h => by
+  | p :: q :: rest, st => by
     simp only [specPath, resolve]
-    simp only [regularParts] at h
     cases hd : defs[st]? with
     | none => exact ⟨rfl, by intro r h; simp at h⟩
     | some d =>
-      simp only [hd] at h ⊢
+      simp only
       cases hm : d.maps.lookup p with
-      | some ty =>
-        simp only
-        by_cases he : rest.isEmpty = true
-        · simp only [he, if_true]
-          exact ⟨rfl, by intro r h; simp at h; subst h; trivial⟩
-        · simp only [he, Bool.false_eq_true, if_false]
-          exact ⟨rfl, by intro r h; simp at h⟩
+      | some md =>
+        simp only [elementSymbol_eq_path]
+        exact ⟨rfl, by intro r h; simp at h; subst h; trivial⟩
       | none =>
-        simp only [hm] at h ⊢
+        simp only
         cases hl : lookupSym defs st p with
         | none => exact ⟨rfl, by intro r h; simp at h⟩
         | some first =>
-          simp only [hl] at h ⊢
+          simp only
           cases hlk : first.linked with
           | none => exact ⟨rfl, by intro r h; simp at h⟩
           | some st' =>
-            simp only [hlk, Bool.and_eq_true] at h ⊢
-            have ih := resolve_path defs (q :: rest) st' h.1
+            simp only
+            have ih := resolve_path defs (q :: rest) st'
             cases first with
             | id => exact ⟨rfl, by intro r h; simp at h⟩
             | field fs fk fty fl =>
@@ -170,8 +359,7 @@ theorem resolve_path (defs : List StoreDef) : ∀ (parts : List String) (st : Na
               | none => exact ⟨rfl, by intro r h; simp at h⟩
               | some r =>
                 have hw := ih.2 r hr
-                have ht : r.hasTail = false := by simpa [hr] using h.2
-                have hc := compose_atoms (.field fs fk fty fl) r hw ht
+                have hc := compose_atoms (.field fs fk fty fl) rfl r hw
                 refine ⟨by simp [hc.1], ?_⟩
                 intro r' hr'; simp at hr'; subst hr'; exact hc.2
             | set fs fk fty fl =>
@@ -181,11 +369,11 @@ theorem resolve_path (defs : List StoreDef) : ∀ (parts : List String) (st : Na
               | none => exact ⟨rfl, by intro r h; simp at h⟩
               | some r =>
                 have hw := ih.2 r hr
-                have ht : r.hasTail = false := by simpa [hr] using h.2
-                have hc := compose_atoms (.set fs fk fty fl) r hw ht
+                have hc := compose_atoms (.set fs fk fty fl) rfl r hw
                 refine ⟨by simp [hc.1], ?_⟩
                 intro r' hr'; simp at hr'; subst hr'; exact hc.2
             | mapElem fs mk fk fty => simp [Atom.linked] at hlk
+            | custom cs cn cty cl ck => exact ⟨rfl, by intro r h; simp at h⟩
 
 theorem levelVals_nonset (db : Db F) (a : Atom) (h : a.isSet = false) (key : Option Bytes) :
     levelVals db a key = [evalAtom db a key] := by
@@ -230,33 +418,44 @@ theorem pathElems_append (db : Db F) (last : List Atom) (hl : last ≠ [])
       exact ih (linkKey v)
 
 /-- a resolved symbol (as `compose` builds it) means what its path means -/
+theorem iterable_linked (a : Atom) (h : a.iterable = true) : a.linked = a.specLinked := by
+  cases a <;> simp_all [Atom.iterable, Atom.linked, Atom.specLinked]
+
+theorem getLast_linked (l : List Atom) (h : l.all Atom.iterable = true) :
+    l.getLast?.bind Atom.linked = l.getLast?.bind Atom.specLinked := by
+  cases hl : l.getLast? with
+  | none => rfl
+  | some a =>
+    have : a ∈ l := List.mem_of_getLast? hl
+    simp [iterable_linked a (List.all_eq_true.mp h a this)]
+
 theorem sem_eq (db : Db F) (r : RSym) (hw : WFR r) (key : Option Bytes) :
     r.isSet = pathIsSet r.atoms ∧ r.ty = pathTy r.atoms ∧
-    (r.hasTail = false → r.linked = pathLinked r.atoms) ∧
+    (r.isSet = true → r.hasTail = false → r.linked = pathLinked r.atoms) ∧
     (r.isSet = false → symVal db r key = evalChain db r.atoms key) ∧
     (r.isSet = true → modelElems db r key = pathElems db r.atoms key) ∧
     (r.isSet = true → r.hasTail = false → cursorKeys db r key = pathElems db r.atoms key) := by
   cases r with
   | atom a =>
     cases a <;> simp [RSym.isSet, RSym.atoms, RSym.ty, RSym.linked, pathIsSet, pathTy, pathLinked, Atom.isSet,
-      symVal, evalChain, modelElems, cursorKeys, pathElems]
+      symVal, evalChain, modelElems, cursorKeys, pathElems, Atom.linked, Atom.specLinked]
   | nonSetComp ch ty =>
-    obtain ⟨hall, hlen, hty⟩ := hw
+    obtain ⟨hall, hlen, hty, _⟩ := hw
     have hns : pathIsSet ch = false := by
       simp only [pathIsSet]
       apply List.any_eq_false.mpr
       intro a ha
       have := List.all_eq_true.mp hall a ha
       simpa using this
-    simp [RSym.isSet, RSym.atoms, RSym.ty, RSym.linked, hns, hty, pathLinked, symVal]
+    simp [RSym.isSet, RSym.atoms, RSym.ty, hns, hty, symVal]
   | compSet iter last ty =>
-    obtain ⟨hall, hne, hset, hlen, hty⟩ := hw
+    obtain ⟨hall, hne, hset, hlen, hty, hit, _, _⟩ := hw
     have hany : pathIsSet (iter ++ last) = true := by
       simp only [pathIsSet, List.any_append] at hset ⊢; simp [hset]
     refine ⟨by simp [RSym.isSet, RSym.atoms, hany], by simp [RSym.ty, RSym.atoms, hty], ?_, by simp [RSym.isSet], ?_, ?_⟩
-    · intro ht
+    · intro _ ht
       cases last with
-      | nil => simp [RSym.linked, RSym.atoms, pathLinked]
+      | nil => simpa [RSym.linked, RSym.atoms, pathLinked] using getLast_linked iter hit
       | cons x xs => simp [RSym.hasTail] at ht
     · intro _
       cases last with
@@ -274,22 +473,133 @@ theorem filter_const_true {α} (l : List α) : l.filter (fun _ => true) = l := b
   | nil => rfl
   | cons a t ih => simp [ih]
 
-theorem cursorRows_live (linked : Option Nat) (es : List (SVal F)) :
-    (cursorRowsOf linked es).filter (fun c' => !c'.2.isNone) = subRowsOf linked es := by
+/-- "is an entity of the store" is the negation of the scanners' skip rule -/
+theorem isEntityOf_eq (db : Db F) (st : Nat) (id : Bytes) : isEntityOf db st id = !skipped db st id := by
+  simp only [isEntityOf, skipped]
+  cases isChild db.defs st <;> cases present db st id <;> cases isExtended db.defs st <;> rfl
+
+/-- the rows the scanner does not skip (nil keys, the child-store presence rule) are the linked
+    entities of the linked store -/
+theorem cursorRows_live (db : Db F) (linked : Option Nat) (es : List (SVal F)) :
+    (cursorRowsOf linked es).filter (fun c' => !(modelWorld db).nilRow c') = subRowsOf db linked es := by
   cases linked with
   | none => rfl
   | some st' =>
-    simp only [cursorRowsOf, subRowsOf]
+    simp only [cursorRowsOf, subRowsOf, modelWorld]
     induction es with
     | nil => rfl
     | cons v vs ih =>
       cases hk : linkKey v with
       | none => simpa [List.filterMap_cons, hk] using ih
-      | some k => simpa [List.filterMap_cons, hk] using ih
+      | some k =>
+        by_cases hs : skipped db st' k = true
+        · simpa [List.filterMap_cons, hk, isEntityOf_eq, hs] using ih
+        · have hs' : skipped db st' k = false := by simpa using hs
+          simpa [List.filterMap_cons, hk, isEntityOf_eq, hs'] using ih
 
-/-- On a regularly resolved name the world the code computes and the path semantics agree: symbol
-    table entry, value, set elements; for the symbol of a sub-query also entity type and rows. -/
-theorem world_name_eq (db : Db F) (c : Ctx) (n : String) (sub : Bool) (h : nameOK db.defs sub c.1 n = true) :
+theorem composeSet_not_atom (ch : List Atom) (ty : NodeType) (a : Atom) : composeSet ch ty ≠ .atom a := by
+  simp only [composeSet]
+  split
+  · split <;> simp
+  · simp
+
+theorem compose_atom_eq (first : Atom) (rest : RSym) (a : Atom) (h : compose first rest = .atom a) : a = first := by
+  cases rest with
+  | atom a' =>
+    by_cases hid : a' = Atom.id
+    · subst hid; simp [compose] at h; exact h.symm
+    · have hcomp : compose first (.atom a') =
+          (if !first.isSet && !a'.isSet then .nonSetComp [first, a'] a'.ty else composeSet [first, a'] a'.ty) := by
+        cases a' <;> first | exact absurd rfl hid | rfl
+      rw [hcomp] at h
+      split at h
+      · cases h
+      · exact absurd h (composeSet_not_atom _ _ _)
+  | nonSetComp ch ty =>
+    simp only [compose] at h
+    split at h
+    · cases h
+    · exact absurd h (composeSet_not_atom _ _ _)
+  | compSet iter last ty =>
+    simp only [compose] at h
+    exact absurd h (composeSet_not_atom _ _ _)
+
+/-- a name resolves to a custom symbol only when it is that symbol's own name -/
+theorem resolve_atom_custom (defs : List StoreDef) : ∀ (parts : List String) (st o : Nat) (n : String) (ty : NodeType)
+    (l : Option Nat) (k : CustomKind), resolve defs st parts = some (.atom (.custom o n ty l k)) →
+    ∃ p, lookupSym defs st p = some (.custom o n ty l k)
+  | [], st, o, n, ty, l, k, h => by simp [resolve] at h
+  | [p], st, o, n, ty, l, k, h => by
+    simp only [resolve] at h
+    cases hl : lookupSym defs st p with
+    | none => simp [hl] at h
+    | some a => simp [hl] at h; subst h; exact ⟨p, hl⟩
+  | p :: q :: rest, st, o, n, ty, l, k, h => by
+    simp only [resolve] at h
+    cases hd : defs[st]? with
+    | none => simp [hd] at h
+    | some d =>
+      simp only [hd] at h
+      cases hm : d.maps.lookup p with
+      | some md => simp only [hm] at h; simp [elementSymbol] at h
+      | none =>
+        simp only [hm] at h
+        cases hl : lookupSym defs st p with
+        | none => simp [hl] at h
+        | some first =>
+          simp only [hl] at h
+          cases hlk : first.linked with
+          | none => simp [hlk] at h
+          | some st' =>
+            simp only [hlk] at h
+            cases first with
+            | id => simp at h
+            | custom cs cn cty cl ck => simp at h
+            | mapElem a b c d => simp [Atom.linked] at hlk
+            | field fs fk ft fl =>
+              simp only [Option.map_eq_some_iff] at h
+              obtain ⟨x, _, hx⟩ := h
+              have := compose_atom_eq _ _ _ hx
+              cases this
+            | set fs fk ft fl =>
+              simp only [Option.map_eq_some_iff] at h
+              obtain ⟨x, _, hx⟩ := h
+              have := compose_atom_eq _ _ _ hx
+              cases this
+
+/-- a symbol that uses external functions only by their own name, read on an entity's own id: the
+    path semantics and the code agree on its value -/
+theorem specChain_eq_direct (db : Db F) (r : RSym) (hd : r.extDirect = true) (id : Bytes) :
+    specChain db r.atoms (some id) = evalChain db r.atoms (some id) := by
+  cases r with
+  | atom a => exact specAtomVal_ext_eq db a id
+  | nonSetComp ch ty => exact specChain_eq db ch (by simpa [RSym.extDirect, RSym.atoms, noExt] using hd) _
+  | compSet iter last ty => exact specChain_eq db _ (by simpa [RSym.extDirect, RSym.atoms, noExt] using hd) _
+
+theorem specElems_eq_direct (db : Db F) (r : RSym) (hd : r.extDirect = true) (hset : r.isSet = true) (key : Option Bytes) :
+    specElems db r.atoms key = pathElems db r.atoms key := by
+  cases r with
+  | atom a =>
+    have : a.isExt = false := by cases a <;> simp_all [RSym.isSet, Atom.isSet, Atom.isExt]
+    exact specElems_eq db [a] (by simp [noExt, this]) key
+  | nonSetComp ch ty => simp [RSym.isSet] at hset
+  | compSet iter last ty => exact specElems_eq db _ (by simpa [RSym.extDirect, RSym.atoms, noExt] using hd) _
+
+/-- type and set-ness of every name agree between the code's and the specification's symbol tables -/
+theorem sym_eq (defs : List StoreDef) (t : Nat) (n : String) : (dbSigma defs).sym t n = (dbSpecSigma defs).sym t n := by
+  obtain ⟨hp, hwf⟩ := resolve_path defs (splitName n) t
+  simp only [dbSigma, dbSpecSigma, hp]
+  cases hr : resolve defs t (splitName n) with
+  | none => simp
+  | some r =>
+    obtain ⟨h1, h2, _⟩ := sem_eq (F := Unit) ⟨[], [], fun _ _ => .fn fun _ => .nil, fun _ v => v⟩ r (hwf r hr) none
+    simp [h1, h2]
+
+/-- On a name that uses external functions directly (`nameOK`), read on an entity (`c.2 = some id`),
+    the world the code computes and the path semantics agree: symbol table entry, value, set elements;
+    for the symbol of a sub-query (without tail) also entity type and rows. -/
+theorem world_name_eq (db : Db F) (c : Ctx) (hc : c.2.isSome = true) (n : String) (sub : Bool)
+    (h : nameOK db.defs sub c.1 n = true) :
     (dbSigma db.defs).sym c.1 n = (dbSpecSigma db.defs).sym c.1 n ∧
     (((dbSigma db.defs).sym c.1 n).map (·.2) = some false → (modelWorld db).val c n = (specWorld db).val c n) ∧
     (((dbSigma db.defs).sym c.1 n).map (·.2) = some true → (modelWorld db).elems c n = (specWorld db).elems c n) ∧
@@ -297,47 +607,52 @@ theorem world_name_eq (db : Db F) (c : Ctx) (n : String) (sub : Bool) (h : nameO
       (dbSigma db.defs).setTypes c.1 n = (dbSpecSigma db.defs).setTypes c.1 n ∧
       liveRows (modelWorld db) c n = liveRows (specWorld db) c n) := by
   simp only [nameOK, Bool.and_eq_true] at h
-  obtain ⟨hp, hwf⟩ := resolve_path db.defs (splitName n) c.1 h.1
+  obtain ⟨hp, hwf⟩ := resolve_path db.defs (splitName n) c.1
+  obtain ⟨st, key⟩ := c
+  cases key with
+  | none => simp at hc
+  | some id =>
   simp only [dbSigma, dbSpecSigma, modelWorld, specWorld, liveRows, hp]
-  cases hr : resolve db.defs c.1 (splitName n) with
+  cases hr : resolve db.defs st (splitName n) with
   | none => simp
   | some r =>
     have hw := hwf r hr
-    obtain ⟨h1, h2, h3, h4, h5, h6⟩ := sem_eq db r hw c.2
+    have hd : r.extDirect = true := by simpa [hr] using h.2
+    obtain ⟨h1, h2, h3, h4, h5, h6⟩ := sem_eq db r hw (some id)
     simp only [Option.map_some, Option.bind_some]
     refine ⟨by rw [h1, h2], ?_, ?_, ?_⟩
     · intro hs
       have hs' : r.isSet = false := by simpa using hs
       have : pathIsSet r.atoms = false := by rw [← h1]; exact hs'
-      simp [this, h4 hs']
+      simp [this, h4 hs', specChain_eq_direct db r hd id]
     · intro hs
       have hs' : r.isSet = true := by simpa using hs
       have : pathIsSet r.atoms = true := by rw [← h1]; exact hs'
-      simp [this, h5 hs']
+      simp [this, h5 hs', specElems_eq_direct db r hd hs']
     · intro hsub hs
       have hs' : r.isSet = true := by simpa using hs
       have hps : pathIsSet r.atoms = true := by rw [← h1]; exact hs'
       have ht : r.hasTail = false := by
-        have := h.2
+        have := h.1
         simp only [hsub, Bool.not_true, Bool.false_or, hr] at this
         simpa using this
-      refine ⟨h3 ht, ?_⟩
-      simp only [hps, if_true, h6 hs' ht, h3 ht, Bool.not_false, filter_const_true]
-      exact cursorRows_live _ _
+      refine ⟨h3 hs' ht, ?_⟩
+      simp only [hps, if_true, h6 hs' ht, h3 hs' ht, Bool.not_false, filter_const_true, specElems_eq_direct db r hd hs']
+      exact cursorRows_live db _ _
 
 /-- the model world under the code's symbol tables and the specification world under the path
     semantics give the same `sat` on filters whose names resolve regularly -/
 theorem sat_world_eq (db : Db F) (fo : FloatOps F) :
-    ∀ (f : U F) (t : Nat) (c : Ctx), c.1 = t → namesOK db.defs t f = true →
+    ∀ (f : U F) (t : Nat) (c : Ctx), c.1 = t → c.2.isSome = true → namesOK db.defs t f = true →
       wellTyped (dbSigma db.defs) fo t f = true ∨ (lhsType (dbSigma db.defs) fo t f).isSome = true →
       sat (dbSigma db.defs) (modelWorld db) fo t c f = sat (dbSpecSigma db.defs) (specWorld db) fo t c f ∧
       lhsDen (dbSigma db.defs) (modelWorld db) fo t c f = lhsDen (dbSpecSigma db.defs) (specWorld db) fo t c f := by
   intro f
   induction f with
   | sym n =>
-    intro t c hc h hwt
+    intro t c hc hc2 h hwt
     subst hc
-    have hn := world_name_eq db c n false (by simpa [namesOK] using h)
+    have hn := world_name_eq db c hc2 n false (by simpa [namesOK] using h)
     have hns : ((dbSigma db.defs).sym c.1 n).map (·.2) = some false := by
       rcases hwt with hwt | hwt
       · simp only [wellTyped] at hwt
@@ -350,9 +665,9 @@ theorem sat_world_eq (db : Db F) (fo : FloatOps F) :
         | some x => obtain ⟨τ, b⟩ := x; cases b <;> simp [hs] at hwt <;> rfl
     simp [sat, lhsDen, symType, ← hn.1, hn.2.1 hns]
   | setFn fn n =>
-    intro t c hc h hwt
+    intro t c hc hc2 h hwt
     subst hc
-    have hn := world_name_eq db c n false (by simpa [namesOK] using h)
+    have hn := world_name_eq db c hc2 n false (by simpa [namesOK] using h)
     have hss : ((dbSigma db.defs).sym c.1 n).map (·.2) = some true := by
       rcases hwt with hwt | hwt
       · cases hs : (dbSigma db.defs).sym c.1 n with
@@ -362,11 +677,11 @@ theorem sat_world_eq (db : Db F) (fo : FloatOps F) :
         | none => cases fn <;> simp [lhsType, hs] at hwt
         | some x => obtain ⟨τ, b⟩ := x; cases fn <;> cases b <;> simp [lhsType, hs] at hwt <;> rfl
     cases fn <;> simp [sat, lhsDen, symType, ← hn.1, hn.2.2.1 hss]
-  | setFnSub fn n q sk li ih =>
-    intro t c hc h hwt
+  | setFnSub fn n q so sk li ih =>
+    intro t c hc hc2 h hwt
     subst hc
     simp only [namesOK, Bool.and_eq_true] at h
-    have hn := world_name_eq db c n true h.1
+    have hn := world_name_eq db c hc2 n true h.1
     -- the typing facts: n is a set symbol with a linked entity type, q is well-typed there
     have hty : ((dbSigma db.defs).sym c.1 n).map (·.2) = some true ∧
         ∃ t', (dbSigma db.defs).setTypes c.1 n = some t' ∧ wellTyped (dbSigma db.defs) fo t' q = true := by
@@ -379,7 +694,7 @@ theorem sat_world_eq (db : Db F) (fo : FloatOps F) :
           | none => cases fn <;> cases b <;> simp [wellTyped, hs, hst] at hwt
           | some t' =>
             cases fn <;> cases b <;> simp [wellTyped, hs, hst] at hwt
-            exact ⟨rfl, t', rfl, hwt.2⟩
+            exact ⟨rfl, t', rfl, hwt.1.2⟩
       · cases hs : (dbSigma db.defs).sym c.1 n with
         | none => cases fn <;> simp [lhsType, hs] at hwt
         | some x =>
@@ -388,13 +703,13 @@ theorem sat_world_eq (db : Db F) (fo : FloatOps F) :
           | none => cases fn <;> cases b <;> simp [lhsType, hs, hst] at hwt
           | some t' =>
             cases fn <;> cases b <;> simp [lhsType, hs, hst] at hwt
-            exact ⟨rfl, t', rfl, hwt.2⟩
+            exact ⟨rfl, t', rfl, hwt.2.1⟩
     obtain ⟨hss, t', hst, hq⟩ := hty
     have hsub := hn.2.2.2 rfl hss
     have hnq : namesOK db.defs t' q = true := by simpa [hst] using h.2
     have hst' : (dbSpecSigma db.defs).setTypes c.1 n = some t' := by rw [← hsub.1]; exact hst
     -- every live sub-row context belongs to the linked store t'
-    have hctx : ∀ c' ∈ liveRows (specWorld db) c n, c'.1 = t' := by
+    have hctx : ∀ c' ∈ liveRows (specWorld db) c n, c'.1 = t' ∧ c'.2.isSome = true := by
       intro c' hc'
       simp only [liveRows, specWorld, Bool.not_false, filter_const_true] at hc'
       simp only [dbSpecSigma] at hst'
@@ -407,17 +722,22 @@ theorem sat_world_eq (db : Db F) (fo : FloatOps F) :
           obtain ⟨v, _, hv⟩ := hc'
           cases hk : linkKey v with
           | none => simp [hk] at hv
-          | some k => simp [hk] at hv; rw [← hv]
+          | some k =>
+            simp only [hk, Option.bind_some] at hv
+            split at hv
+            · simp at hv; rw [← hv]; exact ⟨rfl, rfl⟩
+            · simp at hv
         · simp [hps] at hc'
     have hfil : (List.filter (fun c' => sat (dbSigma db.defs) (modelWorld db) fo t' c' q) (liveRows (specWorld db) c n)) =
         (List.filter (fun c' => sat (dbSpecSigma db.defs) (specWorld db) fo t' c' q) (liveRows (specWorld db) c n)) := by
       apply List.filter_congr
       intro c' hc'
-      exact (ih t' c' (hctx c' hc') hnq (Or.inl hq)).1
-    cases fn <;> simp [sat, lhsDen, hst, hst', hsub.2, hfil]
-  | boolC b => intro t c _ _ _; simp [sat, lhsDen]
+      exact (ih t' c' (hctx c' hc').1 (hctx c' hc').2 hnq (Or.inl hq)).1
+    have hle : (modelWorld db).rowLe = (specWorld db).rowLe := rfl
+    cases fn <;> simp [sat, lhsDen, hst, hst', hsub.2, hfil, hle]
+  | boolC b => intro t c _ _ _ _; simp [sat, lhsDen]
   | cmp op l r ih =>
-    intro t c hc h hwt
+    intro t c hc hc2 h hwt
     have hl : (lhsType (dbSigma db.defs) fo t l).isSome = true := by
       rcases hwt with hwt | hwt
       · simp only [wellTyped] at hwt
@@ -425,9 +745,9 @@ theorem sat_world_eq (db : Db F) (fo : FloatOps F) :
         | none => simp [hl] at hwt
         | some x => rfl
       · simp [lhsType] at hwt
-    simp [sat, lhsDen, (ih t c hc (by simpa [namesOK] using h) (Or.inr hl)).2]
+    simp [sat, lhsDen, (ih t c hc hc2 (by simpa [namesOK] using h) (Or.inr hl)).2]
   | inArr l arr ih =>
-    intro t c hc h hwt
+    intro t c hc hc2 h hwt
     have hl : (lhsType (dbSigma db.defs) fo t l).isSome = true := by
       rcases hwt with hwt | hwt
       · simp only [wellTyped] at hwt
@@ -435,9 +755,9 @@ theorem sat_world_eq (db : Db F) (fo : FloatOps F) :
         | none => simp [hl] at hwt
         | some x => rfl
       · simp [lhsType] at hwt
-    simp [sat, lhsDen, (ih t c hc (by simpa [namesOK] using h) (Or.inr hl)).2]
+    simp [sat, lhsDen, (ih t c hc hc2 (by simpa [namesOK] using h) (Or.inr hl)).2]
   | between l lo hi ih =>
-    intro t c hc h hwt
+    intro t c hc hc2 h hwt
     have hl : (lhsType (dbSigma db.defs) fo t l).isSome = true := by
       rcases hwt with hwt | hwt
       · simp only [wellTyped] at hwt
@@ -445,29 +765,224 @@ theorem sat_world_eq (db : Db F) (fo : FloatOps F) :
         | none => simp [hl] at hwt
         | some x => rfl
       · simp [lhsType] at hwt
-    simp [sat, lhsDen, (ih t c hc (by simpa [namesOK] using h) (Or.inr hl)).2]
+    simp [sat, lhsDen, (ih t c hc hc2 (by simpa [namesOK] using h) (Or.inr hl)).2]
   | notE e ih =>
-    intro t c hc h hwt
+    intro t c hc hc2 h hwt
     have he : wellTyped (dbSigma db.defs) fo t e = true := by
       rcases hwt with hwt | hwt
       · simp only [wellTyped, Bool.and_eq_true] at hwt; exact hwt.2
       · simp [lhsType] at hwt
-    simp [sat, lhsDen, (ih t c hc (by simpa [namesOK] using h) (Or.inl he)).1]
+    simp [sat, lhsDen, (ih t c hc hc2 (by simpa [namesOK] using h) (Or.inl he)).1]
   | unot e ih =>
-    intro t c hc h hwt
+    intro t c hc hc2 h hwt
     have he : wellTyped (dbSigma db.defs) fo t e = true := by
       rcases hwt with hwt | hwt
       · simpa [wellTyped] using hwt
       · simp [lhsType] at hwt
-    simp [sat, lhsDen, (ih t c hc (by simpa [namesOK] using h) (Or.inl he)).1]
+    simp [sat, lhsDen, (ih t c hc hc2 (by simpa [namesOK] using h) (Or.inl he)).1]
   | logic o l r ihl ihr =>
-    intro t c hc h hwt
+    intro t c hc hc2 h hwt
     simp only [namesOK, Bool.and_eq_true] at h
     have he : wellTyped (dbSigma db.defs) fo t l = true ∧ wellTyped (dbSigma db.defs) fo t r = true := by
       rcases hwt with hwt | hwt
       · simpa [wellTyped] using hwt
       · simp [lhsType] at hwt
-    simp [sat, lhsDen, (ihl t c hc h.1 (Or.inl he.1)).1, (ihr t c hc h.2 (Or.inl he.2)).1]
+    simp [sat, lhsDen, (ihl t c hc hc2 h.1 (Or.inl he.1)).1, (ihr t c hc hc2 h.2 (Or.inl he.2)).1]
+
+/-! ### from the specification's typing to the code's: a filter that is well-typed under the path
+  semantics is well-typed under the symbol tables the store answers with, and its sub-queries range
+  over symbols without tail (the specification gives `set.custom` no linked entity type) -/
+
+theorem noniterable_specLinked (a : Atom) (h : a.iterable = false) : a.specLinked = none := by
+  cases a <;> simp_all [Atom.iterable, Atom.specLinked]
+
+/-- what the specification types a sub-query against, the code does too — and then the symbol's cursor
+    keys are its elements -/
+theorem setTypes_rel (defs : List StoreDef) (t : Nat) (n : String) (τ : NodeType) (t' : Nat)
+    (hs : (dbSpecSigma defs).sym t n = some (τ, true)) (hl : (dbSpecSigma defs).setTypes t n = some t') :
+    (dbSigma defs).setTypes t n = some t' ∧
+      (∀ r, resolve defs t (splitName n) = some r → r.hasTail = false) := by
+  obtain ⟨hp, hwf⟩ := resolve_path defs (splitName n) t
+  simp only [dbSpecSigma, dbSigma, hp] at hs hl ⊢
+  cases hr : resolve defs t (splitName n) with
+  | none => simp [hr] at hl
+  | some r =>
+    simp only [hr, Option.map_some, Option.bind_some, Option.some.injEq, Prod.mk.injEq] at hs hl ⊢
+    have hw := hwf r hr
+    obtain ⟨h1, _, h3, _⟩ := sem_eq (F := Unit) ⟨[], [], fun _ _ => .fn fun _ => .nil, fun _ v => v⟩ r hw none
+    have hset : r.isSet = true := by rw [h1]; exact hs.2
+    have ht : r.hasTail = false := by
+      cases r with
+      | atom a => rfl
+      | nonSetComp ch ty => rfl
+      | compSet iter last ty =>
+        cases last with
+        | nil => rfl
+        | cons x xs =>
+          obtain ⟨_, _, _, _, _, _, hl1, hni⟩ := hw
+          have hxs : xs = [] := by
+            cases xs with
+            | nil => rfl
+            | cons y ys => simp at hl1
+          subst hxs
+          have hx : x.iterable = false := by simpa using hni
+          simp [RSym.atoms, pathLinked, noniterable_specLinked x hx] at hl
+    exact ⟨by rw [h3 hset ht]; exact hl, fun r' hr' => by cases hr'; exact ht⟩
+
+theorem okSort_congr (defs : List StoreDef) (t : Nat) (so : List (String × Bool)) :
+    okSort (dbSpecSigma defs) t so = okSort (dbSigma defs) t so := by
+  simp only [okSort]
+  congr 1
+  funext f
+  rw [sym_eq defs t f.1]
+
+theorem extDirect_of_path (defs : List StoreDef) (t : Nat) (n : String) (h : extNameOK defs t n = true) :
+    ∀ r, resolve defs t (splitName n) = some r → r.extDirect = true := by
+  intro r hr
+  obtain ⟨hp, hwf⟩ := resolve_path defs (splitName n) t
+  simp only [extNameOK, hp, hr, Option.map_some] at h
+  have hw := hwf r hr
+  cases r with
+  | atom a => rfl
+  | nonSetComp ch ty =>
+    obtain ⟨_, hlen, _⟩ := hw
+    simp only [RSym.atoms] at h
+    simp only [pathExtOK, Bool.or_eq_true, decide_eq_true_eq] at h
+    rcases h with h | h
+    · omega
+    · simpa [RSym.extDirect, RSym.atoms, noExt] using h
+  | compSet iter last ty =>
+    obtain ⟨_, _, _, hlen, _⟩ := hw
+    simp only [RSym.atoms] at h
+    simp only [pathExtOK, Bool.or_eq_true, decide_eq_true_eq] at h
+    rcases h with h | h
+    · omega
+    · simpa [RSym.extDirect, RSym.atoms, noExt] using h
+
+theorem nameOK_of (defs : List StoreDef) (sub : Bool) (t : Nat) (n : String)
+    (hnt : sub = true → ∀ r, resolve defs t (splitName n) = some r → r.hasTail = false)
+    (he : extNameOK defs t n = true) : nameOK defs sub t n = true := by
+  have hx := extDirect_of_path defs t n he
+  simp only [nameOK]
+  cases hr : resolve defs t (splitName n) with
+  | none => simp
+  | some r =>
+    cases sub with
+    | false => simp [hx r hr]
+    | true => simp [hx r hr, hnt rfl r hr]
+
+theorem spec_typed_ok (defs : List StoreDef) (fo : FloatOps F) : ∀ (f : U F) (t : Nat),
+    (wellTyped (dbSpecSigma defs) fo t f = true → extNamesOK defs t f = true →
+      wellTyped (dbSigma defs) fo t f = true ∧ namesOK defs t f = true) ∧
+    (∀ x, lhsType (dbSpecSigma defs) fo t f = some x → extNamesOK defs t f = true →
+      lhsType (dbSigma defs) fo t f = some x ∧ namesOK defs t f = true) := by
+  intro f
+  induction f with
+  | sym n =>
+    intro t
+    refine ⟨fun h he => ?_, fun x h he => ?_⟩
+    · exact ⟨by simpa [wellTyped, sym_eq defs t n] using h,
+        nameOK_of defs false t n (fun h => by cases h) (by simpa [extNamesOK] using he)⟩
+    · exact ⟨by simpa [lhsType, sym_eq defs t n] using h,
+        nameOK_of defs false t n (fun h => by cases h) (by simpa [extNamesOK] using he)⟩
+  | setFn fn n =>
+    intro t
+    refine ⟨fun h he => ?_, fun x h he => ?_⟩
+    · exact ⟨by cases fn <;> simpa [wellTyped, sym_eq defs t n] using h,
+        nameOK_of defs false t n (fun h => by cases h) (by simpa [extNamesOK] using he)⟩
+    · exact ⟨by cases fn <;> simpa [lhsType, sym_eq defs t n] using h,
+        nameOK_of defs false t n (fun h => by cases h) (by simpa [extNamesOK] using he)⟩
+  | setFnSub fn n q so sk li ih =>
+    intro t
+    have key : ∀ τ t', (dbSpecSigma defs).sym t n = some (τ, true) → (dbSpecSigma defs).setTypes t n = some t' →
+        wellTyped (dbSpecSigma defs) fo t' q = true → extNamesOK defs t (.setFnSub fn n q so sk li) = true →
+        (dbSigma defs).sym t n = some (τ, true) ∧ (dbSigma defs).setTypes t n = some t' ∧
+          wellTyped (dbSigma defs) fo t' q = true ∧ namesOK defs t (.setFnSub fn n q so sk li) = true := by
+      intro τ t' hs hl hq he
+      obtain ⟨hl', hnt⟩ := setTypes_rel defs t n τ t' hs hl
+      simp only [extNamesOK, hl, Bool.and_eq_true] at he
+      obtain ⟨hq', hnq⟩ := (ih t').1 hq he.2
+      refine ⟨by rw [sym_eq]; exact hs, hl', hq', ?_⟩
+      simp only [namesOK, hl', Bool.and_eq_true]
+      exact ⟨nameOK_of defs true t n (fun _ => hnt) he.1, hnq⟩
+    refine ⟨fun h he => ?_, fun x h he => ?_⟩
+    · cases fn with
+      | isEmpty =>
+        simp only [wellTyped] at h
+        cases hs : (dbSpecSigma defs).sym t n with
+        | none => simp [hs] at h
+        | some y =>
+          obtain ⟨τ, b⟩ := y
+          cases hl : (dbSpecSigma defs).setTypes t n with
+          | none => cases b <;> simp [hs, hl] at h
+          | some t' =>
+            cases b <;> simp [hs, hl] at h
+            obtain ⟨h1, h2, h3, h4⟩ := key τ t' hs hl h.1.2 he
+            exact ⟨by simp [wellTyped, h1, h2, h3, h.1.1, ← okSort_congr, h.2], h4⟩
+      | _ => simp [wellTyped] at h
+    · cases fn with
+      | count =>
+        simp only [lhsType] at h
+        cases hs : (dbSpecSigma defs).sym t n with
+        | none => simp [hs] at h
+        | some y =>
+          obtain ⟨τ, b⟩ := y
+          cases hl : (dbSpecSigma defs).setTypes t n with
+          | none => cases b <;> simp [hs, hl] at h
+          | some t' =>
+            cases b <;> simp [hs, hl] at h
+            obtain ⟨⟨hτ, hq, hso⟩, hx⟩ := h
+            obtain ⟨h1, h2, h3, h4⟩ := key τ t' hs hl hq he
+            exact ⟨by simp [lhsType, h1, h2, h3, hτ, ← okSort_congr, hso, hx], h4⟩
+      | _ => simp [lhsType] at h
+  | boolC b => intro t; exact ⟨fun _ _ => ⟨rfl, rfl⟩, fun x h => by simp [lhsType] at h⟩
+  | cmp op l r ih =>
+    intro t
+    refine ⟨fun h he => ?_, fun x h => by simp [lhsType] at h⟩
+    simp only [wellTyped] at h
+    cases hl : lhsType (dbSpecSigma defs) fo t l with
+    | none => simp [hl] at h
+    | some x =>
+      obtain ⟨h1, h2⟩ := (ih t).2 x hl (by simpa [extNamesOK] using he)
+      exact ⟨by simpa [wellTyped, h1, hl] using h, by simpa [namesOK] using h2⟩
+  | inArr l arr ih =>
+    intro t
+    refine ⟨fun h he => ?_, fun x h => by simp [lhsType] at h⟩
+    simp only [wellTyped] at h
+    cases hl : lhsType (dbSpecSigma defs) fo t l with
+    | none => simp [hl] at h
+    | some x =>
+      obtain ⟨h1, h2⟩ := (ih t).2 x hl (by simpa [extNamesOK] using he)
+      exact ⟨by simpa [wellTyped, h1, hl] using h, by simpa [namesOK] using h2⟩
+  | between l lo hi ih =>
+    intro t
+    refine ⟨fun h he => ?_, fun x h => by simp [lhsType] at h⟩
+    simp only [wellTyped] at h
+    cases hl : lhsType (dbSpecSigma defs) fo t l with
+    | none => simp [hl] at h
+    | some x =>
+      obtain ⟨h1, h2⟩ := (ih t).2 x hl (by simpa [extNamesOK] using he)
+      exact ⟨by simpa [wellTyped, h1, hl] using h, by simpa [namesOK] using h2⟩
+  | notE e ih =>
+    intro t
+    refine ⟨fun h he => ?_, fun x h => by simp [lhsType] at h⟩
+    simp only [wellTyped, Bool.and_eq_true] at h
+    obtain ⟨h1, h2⟩ := (ih t).1 h.2 (by simpa [extNamesOK] using he)
+    exact ⟨by simp [wellTyped, h.1, h1], by simpa [namesOK] using h2⟩
+  | unot e ih =>
+    intro t
+    refine ⟨fun h he => ?_, fun x h => by simp [lhsType] at h⟩
+    simp only [wellTyped] at h
+    obtain ⟨h1, h2⟩ := (ih t).1 h (by simpa [extNamesOK] using he)
+    exact ⟨by simpa [wellTyped] using h1, by simpa [namesOK] using h2⟩
+  | logic o l r ihl ihr =>
+    intro t
+    refine ⟨fun h he => ?_, fun x h => by simp [lhsType] at h⟩
+    simp only [wellTyped, Bool.and_eq_true] at h
+    simp only [extNamesOK, Bool.and_eq_true] at he
+    obtain ⟨h1, h2⟩ := (ihl t).1 h.1 he.1
+    obtain ⟨h3, h4⟩ := (ihr t).1 h.2 he.2
+    exact ⟨by simp [wellTyped, h1, h3], by simp [namesOK, h2, h4]⟩
 
 /-- seekable cursors of the bolt-backed world range over sorted string buckets -/
 theorem modelWorld_seekOK (db : Db F) (h : WellFormedDb db) : SeekOK (modelWorld db) := by
@@ -495,6 +1010,7 @@ theorem modelWorld_seekOK (db : Db F) (h : WellFormedDb db) : SeekOK (modelWorld
       | id => simp [hr] at hs
       | field st k ty l => simp [hr] at hs
       | mapElem st mk k ty => simp [hr] at hs
+      | custom cs cn cty cl ck => simp [hr] at hs
     | nonSetComp ch ty => simp [hr] at hs
     | compSet i l ty => simp [hr] at hs
 
@@ -504,22 +1020,82 @@ theorem resolve_out_of_range (defs : List StoreDef) (t : Nat) (h : defs[t]? = no
   | [p] => by simp [resolve, lookupSym, h]
   | p :: q :: rest => by simp [resolve, h]
 
-/-! ### after 0441eb9 no resolved symbol carries a non-iterable tail: every name resolves regularly -/
+/-! ### schemas without custom symbols: after 0441eb9 no resolved symbol carries a non-iterable tail,
+  every name resolves regularly -/
 
-theorem compose_noTail (first : Atom) (rest : RSym) : (compose first rest).hasTail = false := by
+/-- every symbol of the resolved symbol is iterable (a single symbol: not a custom one), no tail -/
+def RSym.allIter : RSym → Bool
+  | .atom (.custom ..) => false
+  | .atom _ => true
+  | r => r.atoms.all Atom.iterable && !r.hasTail
+
+theorem composeSet_allIter (ch : List Atom) (ty : NodeType) (_hne : ch ≠ []) (h : ch.all Atom.iterable = true) :
+    composeSet ch ty = .compSet ch [] ty := by
+  have hf : ch.filter Atom.iterable = ch := List.filter_eq_self.mpr (by simpa using h)
+  simp only [composeSet, hf]
+  cases hl : ch.getLast? with
+  | none => rfl
+  | some last => simp
+
+theorem compose_allIter (first : Atom) (hfi : first.iterable = true) (rest : RSym) (hr : rest.allIter = true) :
+    (compose first rest).allIter = true := by
   cases rest with
-  | atom a => cases a <;> simp only [compose] <;> (try split) <;> rfl
-  | nonSetComp ch ty => simp only [compose]; split <;> rfl
-  | compSet iter last ty => rfl
+  | atom a =>
+    by_cases hid : a = Atom.id
+    · subst hid
+      cases first <;> simp_all [compose, RSym.allIter, Atom.iterable]
+    · have ha : a.iterable = true := by
+        cases a <;> simp_all [RSym.allIter, Atom.iterable]
+      have hcomp : compose first (.atom a) =
+          (if !first.isSet && !a.isSet then .nonSetComp [first, a] a.ty else composeSet [first, a] a.ty) := by
+        cases a <;> first | exact absurd rfl hid | rfl
+      rw [hcomp]
+      split
+      · simp [RSym.allIter, RSym.atoms, RSym.hasTail, hfi, ha]
+      · rw [composeSet_allIter _ _ (by simp) (by simp [hfi, ha])]
+        simp [RSym.allIter, RSym.atoms, RSym.hasTail, hfi, ha]
+  | nonSetComp ch ty =>
+    simp only [RSym.allIter, RSym.atoms, RSym.hasTail, Bool.not_false, Bool.and_true] at hr
+    simp only [compose]
+    split
+    · simp [RSym.allIter, RSym.atoms, RSym.hasTail, hfi, hr]
+    · rw [composeSet_allIter _ _ (by simp) (by simp [hfi, hr])]
+      simp [RSym.allIter, RSym.atoms, RSym.hasTail, hfi, hr]
+  | compSet iter last ty =>
+    cases last with
+    | cons x xs => simp [RSym.allIter, RSym.hasTail] at hr
+    | nil =>
+      simp only [RSym.allIter, RSym.atoms, RSym.hasTail, Bool.not_false, Bool.and_true, List.append_nil] at hr
+      simp only [compose]
+      rw [composeSet_allIter _ _ (by simp) (by simp [hfi, hr])]
+      simp [RSym.allIter, RSym.atoms, RSym.hasTail, hfi, hr]
 
-theorem resolve_noTail (defs : List StoreDef) : ∀ (parts : List String) (st : Nat) (r : RSym),
-    resolve defs st parts = some r → r.hasTail = false
+theorem lookupSym_plain (defs : List StoreDef) (hp : PlainDefs defs) (st : Nat) (n : String) (a : Atom)
+    (h : lookupSym defs st n = some a) : (RSym.atom a).allIter = true := by
+  simp only [lookupSym] at h
+  cases hd : defs[st]? with
+  | none => simp [hd] at h
+  | some d =>
+    simp only [hd] at h
+    cases hl : d.syms.lookup n with
+    | none => simp [hl] at h
+    | some sd =>
+      cases sd with
+      | custom o ty l k => exact absurd hl (hp st d hd n o ty l k)
+      | id => simp [hl] at h; subst h; rfl
+      | field ty l => simp [hl] at h; subst h; rfl
+      | set ty l => simp [hl] at h; subst h; rfl
+      | gfield o ty l => simp [hl] at h; subst h; rfl
+      | gset o ty l => simp [hl] at h; subst h; rfl
+
+theorem resolve_allIter (defs : List StoreDef) (hp : PlainDefs defs) : ∀ (parts : List String) (st : Nat) (r : RSym),
+    resolve defs st parts = some r → r.allIter = true
   | [], st, r, h => by simp [resolve] at h
   | [p], st, r, h => by
     simp only [resolve] at h
     cases hl : lookupSym defs st p with
     | none => simp [hl] at h
-    | some a => simp [hl] at h; subst h; rfl
+    | some a => simp [hl] at h; subst h; exact lookupSym_plain defs hp st p a hl
   | p :: q :: rest, st, r, h => by
     simp only [resolve] at h
     cases hd : defs[st]? with
@@ -527,11 +1103,7 @@ theorem resolve_noTail (defs : List StoreDef) : ∀ (parts : List String) (st : 
     | some d =>
       simp only [hd] at h
       cases hm : d.maps.lookup p with
-      | some ty =>
-        simp only [hm] at h
-        split at h
-        · simp at h; subst h; rfl
-        · simp at h
+      | some md => simp only [hm] at h; simp at h; subst h; rfl
       | none =>
         simp only [hm] at h
         cases hl : lookupSym defs st p with
@@ -544,55 +1116,59 @@ theorem resolve_noTail (defs : List StoreDef) : ∀ (parts : List String) (st : 
             simp only [hlk] at h
             cases first with
             | id => simp at h
+            | custom cs cn cty cl ck => simp at h
             | mapElem a b c d => simp [Atom.linked] at hlk
             | field fs fk ft fl =>
               simp only [Option.map_eq_some_iff] at h
-              obtain ⟨x, _, rfl⟩ := h
-              exact compose_noTail _ x
+              obtain ⟨x, hx, rfl⟩ := h
+              exact compose_allIter _ rfl x (resolve_allIter defs hp (q :: rest) st' x hx)
             | set fs fk ft fl =>
               simp only [Option.map_eq_some_iff] at h
-              obtain ⟨x, _, rfl⟩ := h
-              exact compose_noTail _ x
+              obtain ⟨x, hx, rfl⟩ := h
+              exact compose_allIter _ rfl x (resolve_allIter defs hp (q :: rest) st' x hx)
 
-theorem regular_all (defs : List StoreDef) : ∀ (parts : List String) (st : Nat), regularParts defs st parts = true
-  | [], _ => rfl
-  | [_], _ => rfl
-  | p :: q :: rest, st => by
-    rw [regularParts]
-    cases defs[st]? with
-    | none => rfl
-    | some d =>
-      simp only
-      cases d.maps.lookup p with
-      | some _ => rfl
-      | none =>
-        simp only
-        cases lookupSym defs st p with
-        | none => rfl
-        | some first =>
-          simp only
-          cases first.linked with
-          | none => rfl
-          | some st' =>
-            simp only [regular_all defs (q :: rest) st', Bool.true_and]
-            cases hr : resolve defs st' (q :: rest) with
-            | none => rfl
-            | some x => simp [resolve_noTail defs (q :: rest) st' x hr]
+theorem allIter_noTail (r : RSym) (h : r.allIter = true) : r.hasTail = false := by
+  cases r with
+  | atom a => rfl
+  | nonSetComp ch ty => rfl
+  | compSet iter last ty =>
+    simp only [RSym.allIter, Bool.and_eq_true, Bool.not_eq_eq_eq_not, Bool.not_true] at h
+    exact h.2
 
-theorem nameOK_all (defs : List StoreDef) (sub : Bool) (t : Nat) (n : String) : nameOK defs sub t n = true := by
-  simp only [nameOK, regular_all, Bool.true_and]
+theorem allIter_extDirect (r : RSym) (h : r.allIter = true) : r.extDirect = true := by
+  have key : ∀ l : List Atom, l.all Atom.iterable = true → (l.all fun a => !a.isExt) = true := by
+    intro l hl
+    rw [List.all_eq_true] at hl ⊢
+    intro a ha
+    have := hl a ha
+    cases a <;> simp_all [Atom.iterable, Atom.isExt]
+  cases r with
+  | atom a => rfl
+  | nonSetComp ch ty =>
+    simp only [RSym.allIter, Bool.and_eq_true] at h
+    exact key _ h.1
+  | compSet iter last ty =>
+    simp only [RSym.allIter, Bool.and_eq_true] at h
+    exact key _ h.1
+
+theorem nameOK_all (defs : List StoreDef) (hp : PlainDefs defs) (sub : Bool) (t : Nat) (n : String) :
+    nameOK defs sub t n = true := by
+  simp only [nameOK]
   cases hr : resolve defs t (splitName n) with
   | none => simp
-  | some r => simp [resolve_noTail defs _ t r hr]
+  | some r =>
+    have := resolve_allIter defs hp _ t r hr
+    simp [allIter_noTail r this, allIter_extDirect r this]
 
-theorem namesOK_all (defs : List StoreDef) : ∀ (f : U F) (t : Nat), namesOK defs t f = true := by
+/-- on a schema without custom symbols every filter satisfies the provisos -/
+theorem namesOK_all (defs : List StoreDef) (hp : PlainDefs defs) : ∀ (f : U F) (t : Nat), namesOK defs t f = true := by
   intro f
   induction f with
-  | sym n => intro t; exact nameOK_all defs false t n
-  | setFn fn n => intro t; exact nameOK_all defs false t n
-  | setFnSub fn n q sk li ih =>
+  | sym n => intro t; exact nameOK_all defs hp false t n
+  | setFn fn n => intro t; exact nameOK_all defs hp false t n
+  | setFnSub fn n q so sk li ih =>
     intro t
-    simp only [namesOK, nameOK_all, Bool.true_and]
+    simp only [namesOK, nameOK_all defs hp, Bool.true_and]
     cases (dbSigma defs).setTypes t n with
     | none => rfl
     | some t' => exact ih t'
@@ -604,158 +1180,63 @@ theorem namesOK_all (defs : List StoreDef) : ∀ (f : U F) (t : Nat), namesOK de
   | unot e ih => intro t; exact ih t
   | logic o l r ihl ihr => intro t; simp [namesOK, ihl t, ihr t]
 
-/-- the symbol tables the code computes are the symbol tables of the path semantics -/
-theorem dbSigma_eq_spec (defs : List StoreDef) : dbSigma defs = dbSpecSigma defs := by
-  have key : ∀ t n, (resolve defs t (splitName n)).map (fun r => (r.ty, r.isSet)) =
-        (specPath defs t (splitName n)).map (fun p => (pathTy p, pathIsSet p)) ∧
-      (resolve defs t (splitName n)).bind RSym.linked = (specPath defs t (splitName n)).bind pathLinked := by
-    intro t n
-    obtain ⟨hp, hwf⟩ := resolve_path defs (splitName n) t (regular_all defs _ t)
-    rw [hp]
-    cases hr : resolve defs t (splitName n) with
-    | none => simp
-    | some r =>
-      obtain ⟨h1, h2, h3, _⟩ := sem_eq (F := Unit) ⟨[], []⟩ r (hwf r hr) none
-      simp [h1, h2, h3 (resolve_noTail defs _ t r hr)]
+theorem linked_eq_of_allIter (r : RSym) (h : r.allIter = true) : r.linked = pathLinked r.atoms := by
+  cases r with
+  | atom a => cases a <;> simp_all [RSym.allIter, RSym.linked, RSym.atoms, pathLinked, Atom.linked, Atom.specLinked]
+  | nonSetComp ch ty =>
+    simp only [RSym.allIter, Bool.and_eq_true] at h
+    simpa [RSym.linked, RSym.atoms, pathLinked] using getLast_linked ch h.1
+  | compSet iter last ty =>
+    cases last with
+    | cons x xs => simp [RSym.allIter, RSym.hasTail] at h
+    | nil =>
+      simp only [RSym.allIter, RSym.atoms, List.append_nil, Bool.and_eq_true] at h
+      simpa [RSym.linked, RSym.atoms, pathLinked] using getLast_linked iter h.1
+
+/-- the symbol tables the code computes are the symbol tables of the path semantics (schemas
+    without custom symbols; with them the code gives `set.custom` symbols a linked type) -/
+theorem dbSigma_eq_spec (defs : List StoreDef) (hpl : PlainDefs defs) : dbSigma defs = dbSpecSigma defs := by
   unfold dbSigma dbSpecSigma
   congr 1
-  · funext t n; exact (key t n).1
-  · funext t n; exact (key t n).2
-
-/-! ### names with at most three segments resolve regularly (independently of the repair) -/
-
-theorem compose_atom_noTail (first a : Atom) : (compose first (.atom a)).hasTail = false := by
-  cases a <;> simp only [compose] <;> (try split) <;> rfl
-
-theorem resolve2_noTail (defs : List StoreDef) (st : Nat) (p q : String) (r : RSym)
-    (h : resolve defs st [p, q] = some r) : r.hasTail = false := by
-  simp only [resolve] at h
-  cases hd : defs[st]? with
-  | none => simp [hd] at h
-  | some d =>
-    simp only [hd] at h
-    cases hm : d.maps.lookup p with
-    | some ty => simp [hm] at h; subst h; rfl
-    | none =>
-      simp only [hm] at h
-      cases hl : lookupSym defs st p with
-      | none => simp [hl] at h
-      | some first =>
-        simp only [hl] at h
-        cases hlk : first.linked with
-        | none => simp [hlk] at h
-        | some st' =>
-          simp only [hlk] at h
-          cases first with
-          | id => simp at h
-          | mapElem a b c d => simp [Atom.linked] at hlk
-          | field fs fk ft fl =>
-            simp only at h
-            cases ha : lookupSym defs st' q with
-            | none => simp [ha] at h
-            | some a => simp [ha] at h; subst h; exact compose_atom_noTail _ a
-          | set fs fk ft fl =>
-            simp only at h
-            cases ha : lookupSym defs st' q with
-            | none => simp [ha] at h
-            | some a => simp [ha] at h; subst h; exact compose_atom_noTail _ a
-
-theorem regular_le3 (defs : List StoreDef) : ∀ (st : Nat) (parts : List String), parts.length ≤ 3 →
-    regularParts defs st parts = true
-  | _, [], _ => rfl
-  | _, [_], _ => rfl
-  | st, [p, q], _ => by
-    simp only [regularParts]
-    cases defs[st]? with
+  · funext t n; exact sym_eq defs t n
+  · funext t n
+    obtain ⟨hp, _⟩ := resolve_path defs (splitName n) t
+    rw [hp]
+    cases hr : resolve defs t (splitName n) with
     | none => rfl
-    | some d =>
-      simp only
-      cases d.maps.lookup p with
-      | some _ => rfl
-      | none =>
-        simp only
-        cases lookupSym defs st p with
-        | none => rfl
-        | some first =>
-          simp only
-          cases first.linked with
-          | none => rfl
-          | some st' =>
-            simp only [resolve, Bool.true_and]
-            cases lookupSym defs st' q with
-            | none => rfl
-            | some a => rfl
-  | st, [p, q, r], _ => by
-    have key : ∀ st', regularParts defs st' [q, r] = true := fun st' => regular_le3 defs st' [q, r] (by simp)
-    rw [regularParts]
-    cases defs[st]? with
+    | some r => simp [linked_eq_of_allIter r (resolve_allIter defs hpl _ t r hr)]
+
+/-- on a schema without custom symbols no name involves an external function -/
+theorem extNamesOK_all (defs : List StoreDef) (hp : PlainDefs defs) : ∀ (f : U F) (t : Nat), extNamesOK defs t f = true := by
+  have key : ∀ t n, extNameOK defs t n = true := by
+    intro t n
+    obtain ⟨hpath, _⟩ := resolve_path defs (splitName n) t
+    simp only [extNameOK, hpath]
+    cases hr : resolve defs t (splitName n) with
     | none => rfl
-    | some d =>
-      simp only
-      cases d.maps.lookup p with
-      | some _ => rfl
-      | none =>
-        simp only
-        cases lookupSym defs st p with
-        | none => rfl
-        | some first =>
-          simp only
-          cases first.linked with
-          | none => rfl
-          | some st' =>
-            simp only [key st', Bool.true_and]
-            cases hr : resolve defs st' [q, r] with
-            | none => rfl
-            | some x => simp [resolve2_noTail defs st' q r x hr]
-  | _, _ :: _ :: _ :: _ :: _, h => by simp at h
-
-/-- names of at most three segments everywhere, of at most two segments for the symbol of a sub-query -/
-def shortNames : U F → Bool
-  | .sym n => (splitName n).length ≤ 3
-  | .setFn _ n => (splitName n).length ≤ 3
-  | .setFnSub _ n q _ _ => (splitName n).length ≤ 2 && shortNames q
-  | .boolC _ => true
-  | .cmp _ l _ => shortNames l
-  | .inArr l _ => shortNames l
-  | .between l _ _ => shortNames l
-  | .notE e => shortNames e
-  | .unot e => shortNames e
-  | .logic _ l r => shortNames l && shortNames r
-
-theorem namesOK_of_short (defs : List StoreDef) : ∀ (f : U F) (t : Nat), shortNames f = true → namesOK defs t f = true := by
+    | some r =>
+      have hi := resolve_allIter defs hp _ t r hr
+      have hd := allIter_extDirect r hi
+      cases r with
+      | atom a => simp [pathExtOK, RSym.atoms]
+      | nonSetComp ch ty => simpa [pathExtOK, RSym.atoms, RSym.extDirect, noExt] using Or.inr hd
+      | compSet iter last ty => simpa [pathExtOK, RSym.atoms, RSym.extDirect, noExt] using Or.inr hd
   intro f
   induction f with
-  | sym n => intro t h; simp only [shortNames, decide_eq_true_eq] at h; simp [namesOK, nameOK, regular_le3 defs t _ h]
-  | setFn fn n => intro t h; simp only [shortNames, decide_eq_true_eq] at h; simp [namesOK, nameOK, regular_le3 defs t _ h]
-  | setFnSub fn n q sk li ih =>
-    intro t h
-    simp only [shortNames, Bool.and_eq_true, decide_eq_true_eq] at h
-    have hreg := regular_le3 defs t (splitName n) (by omega)
-    have hnt : (match resolve defs t (splitName n) with | some r => !r.hasTail | none => true) = true := by
-      cases hr : resolve defs t (splitName n) with
-      | none => rfl
-      | some r =>
-        have : r.hasTail = false := by
-          match hs : splitName n, h.1 with
-          | [], _ => simp [hs, resolve] at hr
-          | [p], _ => simp [hs, resolve] at hr; obtain ⟨a, _, rfl⟩ := hr; rfl
-          | [p, q], _ => rw [hs] at hr; exact resolve2_noTail defs t p q r hr
-          | _ :: _ :: _ :: _, hl => simp at hl
-        simp [this]
-    simp only [namesOK, nameOK, hreg, Bool.not_true, Bool.false_or, Bool.true_and, Bool.and_eq_true]
-    refine ⟨hnt, ?_⟩
-    cases (dbSigma defs).setTypes t n with
+  | sym n => intro t; exact key t n
+  | setFn fn n => intro t; exact key t n
+  | setFnSub fn n q so sk li ih =>
+    intro t
+    simp only [extNamesOK, key, Bool.true_and]
+    cases (dbSpecSigma defs).setTypes t n with
     | none => rfl
-    | some t' => exact ih t' h.2
-  | boolC b => intro t _; rfl
-  | cmp op l r ih => intro t h; exact ih t (by simpa [shortNames] using h)
-  | inArr l arr ih => intro t h; exact ih t (by simpa [shortNames] using h)
-  | between l lo hi ih => intro t h; exact ih t (by simpa [shortNames] using h)
-  | notE e ih => intro t h; exact ih t (by simpa [shortNames] using h)
-  | unot e ih => intro t h; exact ih t (by simpa [shortNames] using h)
-  | logic o l r ihl ihr =>
-    intro t h
-    simp only [shortNames, Bool.and_eq_true] at h
-    simp [namesOK, ihl t h.1, ihr t h.2]
+    | some t' => exact ih t'
+  | boolC b => intro t; rfl
+  | cmp op l r ih => intro t; exact ih t
+  | inArr l arr ih => intro t; exact ih t
+  | between l lo hi ih => intro t; exact ih t
+  | notE e ih => intro t; exact ih t
+  | unot e ih => intro t; exact ih t
+  | logic o l r ihl ihr => intro t; simp [extNamesOK, ihl t, ihr t]
 
 end StorageModel.Filter
